@@ -57,6 +57,7 @@ fn all() {
     family_group!(c13_find, crate::h_c13::c13_find);
     family_group!(c13_make, crate::h_c13::c13_make);
     family_group!(c13_all, crate::h_c13::c13_all);
+    family_group!(c13_allw, crate::h_c13::c13_allw);
     family_group!(c13_san, crate::h_c13::c13_san);
     squares64!(rsq, c04_rook, crate::h_tables::c04_rook);
     squares64!(rsq, c04_bishop, crate::h_tables::c04_bishop);
